@@ -275,10 +275,10 @@ impl std::ops::BitXor for InfoHash {
     #[verifier::external_body]
     fn bitxor(self, rhs: InfoHash) -> InfoHash { unimplemented!() }
 }
-//@begin const src/action/lookup.rs - ENDGAME_TIMEOUT
+//@begin const src/action/lookup.rs - ENDGAME_TIMEOUT props=C04
 pub exec const ENDGAME_TIMEOUT: Duration ensures dur_nanos(ENDGAME_TIMEOUT) == 1_500_000_000 { Duration::from_millis(1500) }
 //@end
-//@begin const src/action/lookup.rs - LOOKUP_TIMEOUT
+//@begin const src/action/lookup.rs - LOOKUP_TIMEOUT props=C04
 pub exec const LOOKUP_TIMEOUT: Duration ensures dur_nanos(LOOKUP_TIMEOUT) == 1_500_000_000 { Duration::from_millis(1500) }
 //@end
 /// a get_peers query of this search: 8-byte id with the search's action prefix, own id, searched info-hash, no `want`
@@ -294,8 +294,38 @@ pub open spec fn outstanding_ids_ok(l: TableLookup) -> bool {
     forall|t: TransactionID| #[trigger] l.active_lookups@.contains_key(t) ==> tid_value(t) >> 24 == l.id_generator.action_id >> 24
 }
 
+/// C04: a timer entry of this search (its queries' timeouts and its end-game timeout carry ids of the search)
+pub open spec fn entry_of(l: TableLookup, v: ScheduledTaskCheck) -> bool {
+    match v {
+        ScheduledTaskCheck::LookupTimeout(t) => tid_value(t) >> 24 == l.id_generator.action_id >> 24,
+        ScheduledTaskCheck::LookupEndGame(t) => tid_value(t) >> 24 == l.id_generator.action_id >> 24,
+        ScheduledTaskCheck::TableRefresh => false,
+    }
+}
+/// C04 ("never stuck"): what keeps a live search going.  Outside the end-game every outstanding query -- except `fired`, the one
+/// whose timeout has just fired and is being handled -- owns a pending timeout that will report exactly this query; in the end-game
+/// an end-game timeout of this search is pending.  So whenever a search is not finished some pending timer entry will wake it.
+pub open spec fn wake_ok(l: TableLookup, t: Timer<ScheduledTaskCheck>, fired: Option<TransactionID>) -> bool {
+    &&& (!l.in_endgame ==> forall|tid: TransactionID| #[trigger] l.active_lookups@.contains_key(tid) && Some(tid) != fired
+            ==> t.pending@.contains_key(l.active_lookups@[tid].1) && t.pending@[l.active_lookups@[tid].1] == ScheduledTaskCheck::LookupTimeout(tid))
+    &&& (l.in_endgame ==> exists|k: Timeout| #[trigger] t.pending@.contains_key(k) && t.pending@[k] is LookupEndGame && entry_of(l, t.pending@[k]))
+}
+/// C04: a search removes no timer entry but its own
+pub open spec fn others_kept(l: TableLookup, o: Timer<ScheduledTaskCheck>, f: Timer<ScheduledTaskCheck>) -> bool {
+    forall|k: Timeout| #[trigger] o.pending@.contains_key(k) && !entry_of(l, o.pending@[k]) ==> f.pending@.contains_key(k) && f.pending@[k] == o.pending@[k]
+}
+/// C04: every timeout scheduled between o and f fires 1.5 s after it was scheduled
+pub open spec fn new_timeouts_1500ms(o: Timer<ScheduledTaskCheck>, f: Timer<ScheduledTaskCheck>) -> bool {
+    forall|k: Timeout| #[trigger] f.pending@.contains_key(k) && k.id >= o.next_id ==> k.deadline.t as int == tclock() + 1_500_000_000
+}
+pub open spec fn status_of(l: TableLookup) -> ActionStatus {
+    if l.in_endgame || l.active_lookups@.len() != 0 { ActionStatus::Ongoing } else { ActionStatus::Completed }
+}
+/// number of messages handed to the socket between o and f is zero
+pub open spec fn nothing_sent(o: Seq<Ev>, f: Seq<Ev>) -> bool { forall|i: int| o.len() <= i < f.len() ==> !(#[trigger] f[i] is Send) }
+
 impl TableLookup {
-//@begin fn src/action/lookup.rs impl:TableLookup new rules=R-deasync props=C03,C19,C17
+//@begin fn src/action/lookup.rs impl:TableLookup new rules=R-deasync props=C03,C19,C17,C04
     #[verifier::exec_allows_no_decreases_clause]
     pub fn new(
         target_id: InfoHash,
@@ -311,6 +341,11 @@ impl TableLookup {
         ensures r.target_id == target_id, r.will_announce == will_announce, r.id_generator.action_id == id_generator.action_id, !r.in_endgame,
             r.announce_tokens@.len() == 0, // @C03.new_search_knows_no_token
             outstanding_ids_ok(r), // @C03.outstanding_ids_belong_to_this_search
+            // C04: a new search is either finished at once (no good node could be asked) or kept going by pending timeouts
+            wake_ok(r, *final(timer), None), // @C04.every_outstanding_query_has_a_pending_timeout
+            nothing_sent(old(tr).ev, final(tr).ev) ==> r.active_lookups@.len() == 0, // @C04.a_search_that_can_ask_nobody_is_finished_at_once
+            new_timeouts_1500ms(*old(timer), *final(timer)), // @C04.query_timeout_is_1500_ms
+            others_kept(r, *old(timer), *final(timer)), // @C04.a_search_removes_only_its_own_timer_entries
             // creating a search is recorded as the (ghost) LookupStart event; what follows is its first round of queries
             final(tr).ev.len() > old(tr).ev.len(), final(tr).ev[old(tr).ev.len() as int] == Ev::LookupStart(target_id, will_announce),
             only_requests_and_yields(old(tr).ev.push(Ev::LookupStart(target_id, will_announce)), final(tr).ev), // @C03.first_round_only_queries
@@ -389,7 +424,7 @@ impl TableLookup {
     }
 //@end
 
-//@begin fn src/action/lookup.rs impl:TableLookup start_request_round rules=R-deasync props=C03,C19,C17
+//@begin fn src/action/lookup.rs impl:TableLookup start_request_round rules=R-deasync props=C03,C19,C17,C04
     #[verifier::exec_allows_no_decreases_clause]
     pub fn start_request_round<'a, I>(
         &mut self,
@@ -402,6 +437,13 @@ impl TableLookup {
         requires old(timer).wf()
         ensures only_requests_and_yields(old(tr).ev, final(tr).ev), no_yield(old(tr).ev, final(tr).ev), // @C03.request_round_only_queries
             outstanding_ids_ok(*old(self)) ==> outstanding_ids_ok(*final(self)), // @C03.outstanding_ids_belong_to_this_search
+            // C04: every query registered by the round owns a pending 1.5 s timeout; older queries keep theirs; nobody else's timer entry is touched
+            wake_ok(*old(self), *old(timer), None) ==> wake_ok(*final(self), *final(timer), None), // @C04.every_outstanding_query_has_a_pending_timeout
+            new_timeouts_1500ms(*old(timer), *final(timer)), // @C04.query_timeout_is_1500_ms
+            others_kept(*old(self), *old(timer), *final(timer)), // @C04.a_search_removes_only_its_own_timer_entries
+            // C04: a round that handed at least one query to the socket keeps every older outstanding query; a round that could send nothing gives up
+            final(self).active_lookups@.len() == 0 || (forall|t: TransactionID| #[trigger] old(self).active_lookups@.contains_key(t) ==> final(self).active_lookups@.contains_key(t)), // @C04.a_round_keeps_the_older_queries_unless_it_could_send_nothing_and_gives_up
+            nothing_sent(old(tr).ev, final(tr).ev) ==> final(self).active_lookups@.len() == 0, // @C04.a_round_that_could_send_nothing_gives_up
             no_new_refresh(*old(timer), *final(timer)),
             final(self).announce_tokens == old(self).announce_tokens, final(self).will_announce == old(self).will_announce, // @C03.request_round_keeps_tokens
             final(self).target_id == old(self).target_id, final(self).this_node_id == old(self).this_node_id, final(self).in_endgame == old(self).in_endgame,
@@ -415,10 +457,17 @@ impl TableLookup {
         let ghost ev0 = tr.ev;
         // Loop through the given nodes
         let mut messages_sent = 0;
+        let ghost mut sent_at: int = 0;
         let mut vx_it = nodes;
         loop
             invariant only_requests_and_yields(ev0, tr.ev), no_yield(ev0, tr.ev), // @C03.request_round_only_queries
                 outstanding_ids_ok(*old(self)) ==> outstanding_ids_ok(*self), // @C03.outstanding_ids_belong_to_this_search
+                timer.wf(), timer.next_id >= old(timer).next_id,
+                wake_ok(*old(self), *old(timer), None) ==> wake_ok(*self, *timer, None), // @C04.every_outstanding_query_has_a_pending_timeout
+                new_timeouts_1500ms(*old(timer), *timer), // @C04.query_timeout_is_1500_ms
+                others_kept(*old(self), *old(timer), *timer), // @C04.a_search_removes_only_its_own_timer_entries
+                forall|t: TransactionID| #[trigger] old(self).active_lookups@.contains_key(t) ==> self.active_lookups@.contains_key(t), // @C04.a_round_keeps_the_older_queries_unless_it_could_send_nothing_and_gives_up
+                messages_sent > 0 ==> ev0.len() <= sent_at < tr.ev.len() && tr.ev[sent_at] is Send, messages_sent >= 0,
                 no_new_refresh(*old(timer), *timer),
                 self.announce_tokens == old(self).announce_tokens, self.will_announce == old(self).will_announce, // @C03.request_round_keeps_tokens
                 self.target_id == old(self).target_id, self.this_node_id == old(self).this_node_id, self.in_endgame == old(self).in_endgame,
@@ -432,6 +481,8 @@ impl TableLookup {
                 break;
             }
             let (node, dist_to_beat) = vx_nx.unwrap();
+            let ghost l1 = *self;
+            let ghost t1 = *timer;
             // Generate a transaction id for this message
             let trans_id = self.id_generator.generate();
 
@@ -442,6 +493,23 @@ impl TableLookup {
             // Associate the transaction id with the distance the returned nodes must beat and the timeout token
             self.active_lookups
                 .insert(trans_id, (dist_to_beat, timeout));
+            proof {
+                if wake_ok(l1, t1, None) {
+                    if !self.in_endgame {
+                        assert forall|tid: TransactionID| #[trigger] self.active_lookups@.contains_key(tid) implies
+                            timer.pending@.contains_key(self.active_lookups@[tid].1) && timer.pending@[self.active_lookups@[tid].1] == ScheduledTaskCheck::LookupTimeout(tid) by {
+                            if tid != trans_id {
+                                assert(l1.active_lookups@.contains_key(tid));
+                                assert(t1.pending@.contains_key(l1.active_lookups@[tid].1));
+                            }
+                        }
+                    } else {
+                        let k = choose|k: Timeout| #[trigger] t1.pending@.contains_key(k) && t1.pending@[k] is LookupEndGame && entry_of(l1, t1.pending@[k]);
+                        assert(timer.pending@.contains_key(k) && timer.pending@[k] == t1.pending@[k]);
+                    }
+                    assert(wake_ok(*self, *timer, None));
+                }
+            }
 
             // Send the message to the node
             let get_peers_msg = Message {
@@ -456,9 +524,11 @@ impl TableLookup {
                 assert forall|t: TransactionID| #[trigger] t.bytes@ == get_peers_msg.transaction_id@ implies t == trans_id by { assert(t.bytes =~= trans_id.bytes); }
             }
 
+            let ghost evs = tr.ev;
             if let Err(error) = socket.send(&get_peers_msg, node.addr, Tracked(tr)) {
                 continue;
             }
+            proof { sent_at = evs.len() as int; }
 
             // We requested from the node, mark it down
             self.requested_nodes.insert(*node);
@@ -475,13 +545,14 @@ impl TableLookup {
             messages_sent += 1;
         }
 
+        proof { if messages_sent > 0 { assert(tr.ev[sent_at] is Send); } }
         if messages_sent == 0 {
             self.active_lookups.clear();
         }
     }
 //@end
 
-//@begin fn src/action/lookup.rs impl:TableLookup start_endgame_round rules=R-deasync props=C03,C19,C17
+//@begin fn src/action/lookup.rs impl:TableLookup start_endgame_round rules=R-deasync props=C03,C19,C17,C04
     #[verifier::exec_allows_no_decreases_clause]
     pub fn start_endgame_round(
         &mut self,
@@ -492,6 +563,10 @@ impl TableLookup {
         requires old(timer).wf()
         ensures only_requests_and_yields(old(tr).ev, final(tr).ev), no_yield(old(tr).ev, final(tr).ev), // @C03.endgame_round_only_queries
             outstanding_ids_ok(*old(self)) ==> outstanding_ids_ok(*final(self)), // @C03.outstanding_ids_belong_to_this_search
+            // C04: entering the end-game schedules the 1.5 s end-game timeout of this search that will finish it
+            final(self).in_endgame && wake_ok(*final(self), *final(timer), None), // @C04.end_game_has_a_pending_timeout
+            new_timeouts_1500ms(*old(timer), *final(timer)), // @C04.end_game_lasts_1500_ms
+            others_kept(*old(self), *old(timer), *final(timer)), // @C04.a_search_removes_only_its_own_timer_entries
             no_new_refresh(*old(timer), *final(timer)),
             final(self).announce_tokens == old(self).announce_tokens, final(self).will_announce == old(self).will_announce, // @C03.endgame_round_keeps_tokens
             final(self).target_id == old(self).target_id, final(self).this_node_id == old(self).this_node_id,
@@ -511,12 +586,15 @@ impl TableLookup {
             ScheduledTaskCheck::LookupEndGame(self.id_generator.generate()),
         );
 
+        let ghost tm1 = *timer;
+        assert(timer.pending@.contains_key(timeout) && entry_of(*self, timer.pending@[timeout]));
         // Request all unpinged nodes if we didnt receive any values
         if !self.recv_values {
             let mut vx_it = self.all_sorted_nodes.iter_mut().filter(|p: &&mut (Distance, NodeHandle, bool)| -> (b: bool) { let (_, _, req) = p; !req });
             loop
                 invariant only_requests_and_yields(ev0, tr.ev), no_yield(ev0, tr.ev), // @C03.endgame_round_only_queries
                     outstanding_ids_ok(*old(self)) ==> outstanding_ids_ok(*self), // @C03.outstanding_ids_belong_to_this_search
+                    self.in_endgame, *timer == tm1,
                     no_new_refresh(*old(timer), *timer),
                     self.announce_tokens == old(self).announce_tokens, self.will_announce == old(self).will_announce, // @C03.endgame_round_keeps_tokens
                     self.target_id == old(self).target_id, self.this_node_id == old(self).this_node_id,
@@ -571,7 +649,7 @@ impl TableLookup {
     }
 //@end
 
-//@begin fn src/action/lookup.rs impl:TableLookup recv_response rules=R-deasync props=C03,C05,C19
+//@begin fn src/action/lookup.rs impl:TableLookup recv_response rules=R-deasync props=C03,C05,C19,C04
     pub fn recv_response(
         &mut self,
         node: Node,
@@ -592,6 +670,14 @@ impl TableLookup {
             old(self).active_lookups@.contains_key(*trans_id) ==> final(self).announce_tokens@ == (if msg.token is Some { old(self).announce_tokens@.insert(node.handle, msg.token->0) } else { old(self).announce_tokens@ }), // @C03.latest_token_recorded_under_responder
             no_replies(old(tr).ev, final(tr).ev), only_requests_and_yields(old(tr).ev, final(tr).ev), // @C05.responses_never_answered
             outstanding_ids_ok(*old(self)) ==> outstanding_ids_ok(*final(self)), // @C03.outstanding_ids_belong_to_this_search
+            // C04: the search reports Completed only when no query is outstanding and no end-game is running; as long as it goes on it cannot get stuck
+            res == status_of(*final(self)), // @C04.completed_only_without_outstanding_query_and_outside_the_end_game
+            old(self).active_lookups@.contains_key(*trans_id) && !old(self).in_endgame ==> res == ActionStatus::Ongoing, // @C04.a_search_ends_only_through_its_end_game
+            wake_ok(*old(self), *old(timer), None) && outstanding_ids_ok(*old(self)) ==> wake_ok(*final(self), *final(timer), None), // @C04.every_outstanding_query_has_a_pending_timeout
+            wake_ok(*old(self), *old(timer), None) && outstanding_ids_ok(*old(self)) ==> others_kept(*old(self), *old(timer), *final(timer)), // @C04.a_search_removes_only_its_own_timer_entries
+            new_timeouts_1500ms(*old(timer), *final(timer)), // @C04.query_timeout_is_1500_ms
+            // C04: an answer retires its own query only: every other outstanding query stays outstanding unless a round that could send nothing gave up
+            old(self).active_lookups@.contains_key(*trans_id) ==> final(self).active_lookups@.len() == 0 || final(self).in_endgame || (forall|t: TransactionID| #[trigger] old(self).active_lookups@.contains_key(t) && t != *trans_id ==> final(self).active_lookups@.contains_key(t)), // @C04.an_answer_retires_only_its_own_query
             no_new_refresh(*old(timer), *final(timer)),
             final(self).will_announce == old(self).will_announce, final(self).target_id == old(self).target_id, final(self).this_node_id == old(self).this_node_id,
             final(self).id_generator.action_id == old(self).id_generator.action_id,
@@ -613,6 +699,17 @@ impl TableLookup {
         if !self.in_endgame {
             timer.cancel(timeout);
         }
+        let ghost tm_c = *timer;
+        proof {
+            if wake_ok(*old(self), *old(timer), None) && outstanding_ids_ok(*old(self)) {
+                assert(old(self).active_lookups@.contains_key(*trans_id));
+                if !self.in_endgame {
+                    assert(old(timer).pending@[timeout] == ScheduledTaskCheck::LookupTimeout(*trans_id));
+                    assert(entry_of(*old(self), old(timer).pending@[timeout]));
+                }
+                assert(others_kept(*old(self), *old(timer), tm_c));
+            }
+        }
 
         if let Some(token) = msg.token {
             // Add the announce token to our list of tokens
@@ -627,6 +724,8 @@ impl TableLookup {
         let values = msg.values;
 
         // Check if we beat the distance, get the next distance to beat
+        let ghost tok_m = self.announce_tokens;
+        let ghost act_m = self.active_lookups;
         let (iterate_nodes, next_dist_to_beat) = if !nodes.is_empty() {
             let requested_nodes = &self.requested_nodes;
 
@@ -658,6 +757,7 @@ impl TableLookup {
                 let mut vx_i: usize = 0;
                 while vx_i < nodes.len()
                     invariant vx_i <= nodes.len(),
+                        tr.ev == ev0 && self.announce_tokens == tok_m && self.active_lookups == act_m && *timer == tm_c, // @C03.node_selection_touches_only_the_candidate_list
                     decreases nodes.len() - vx_i,
                 {
                     let node = nodes[vx_i];
@@ -673,6 +773,7 @@ impl TableLookup {
                 let mut vx_i: usize = 0;
                 while vx_i < nodes.len()
                     invariant vx_i <= nodes.len(),
+                        tr.ev == ev0 && self.announce_tokens == tok_m && self.active_lookups == act_m && *timer == tm_c, // @C03.node_selection_touches_only_the_candidate_list
                     decreases nodes.len() - vx_i,
                 {
                     let node = nodes[vx_i];
@@ -706,15 +807,24 @@ impl TableLookup {
             }
         }
 
+        proof {
+            if wake_ok(*old(self), *old(timer), None) && outstanding_ids_ok(*old(self)) {
+                assert(others_kept(*old(self), *old(timer), *timer));
+            }
+        }
         let ghost ev1 = tr.ev;
         let ghost vals = values@;
         let ghost ann1 = self.announce_tokens;
         let ghost tm1 = *timer;
-        proof { lemma_yields_quiet(ev0, ev1); }
+        proof {
+            lemma_yields_quiet(ev0, ev1); // @C03.yields_exactly_the_values_of_an_outstanding_query
+        }
         for value in it: values
             invariant it.snapshot@.remaining() == vals, 0 <= it.index@ <= vals.len(),
-                yields(tr.ev) == yields(ev0) + vals.take(it.index@ as int), no_replies(ev0, tr.ev), only_requests_and_yields(ev0, tr.ev),
-                self.announce_tokens == ann1, self.will_announce == old(self).will_announce, self.target_id == old(self).target_id, self.this_node_id == old(self).this_node_id,
+                yields(tr.ev) == yields(ev0) + vals.take(it.index@ as int), // @C03.yields_exactly_the_values_of_an_outstanding_query
+                no_replies(ev0, tr.ev), only_requests_and_yields(ev0, tr.ev), // @C05.responses_never_answered
+                self.announce_tokens == ann1, // @C03.latest_token_recorded_under_responder
+                 self.will_announce == old(self).will_announce, self.target_id == old(self).target_id, self.this_node_id == old(self).this_node_id,
                 *timer == tm1, self.id_generator.action_id == old(self).id_generator.action_id, extends(ev1, tr.ev),
                 forall|i: int| ev1.len() <= i < tr.ev.len() ==> !(#[trigger] tr.ev[i] is Send),
         {
@@ -734,7 +844,7 @@ impl TableLookup {
     }
 //@end
 
-//@begin fn src/action/lookup.rs impl:TableLookup recv_timeout rules=R-deasync props=C03,C05,C19
+//@begin fn src/action/lookup.rs impl:TableLookup recv_timeout rules=R-deasync props=C03,C05,C19,C04
     pub fn recv_timeout(
         &mut self,
         trans_id: &TransactionID,
@@ -747,6 +857,13 @@ impl TableLookup {
             !old(self).active_lookups@.contains_key(*trans_id) ==> final(tr).ev == old(tr).ev && *final(timer) == *old(timer) && final(self).active_lookups@ == old(self).active_lookups@, // @C03.unknown_timeout_changes_nothing
             only_requests_and_yields(old(tr).ev, final(tr).ev), no_yield(old(tr).ev, final(tr).ev), // @C03.timeouts_yield_nothing
             outstanding_ids_ok(*old(self)) ==> outstanding_ids_ok(*final(self)), // @C03.outstanding_ids_belong_to_this_search
+            // C04: `trans_id` is the query whose timeout has just fired (the fired entry is gone from the timer)
+            res == status_of(*final(self)), // @C04.completed_only_without_outstanding_query_and_outside_the_end_game
+            old(self).active_lookups@.contains_key(*trans_id) && !old(self).in_endgame ==> res == ActionStatus::Ongoing, // @C04.a_search_ends_only_through_its_end_game
+            wake_ok(*old(self), *old(timer), Some(*trans_id)) ==> wake_ok(*final(self), *final(timer), None), // @C04.every_outstanding_query_has_a_pending_timeout
+            others_kept(*old(self), *old(timer), *final(timer)), // @C04.a_search_removes_only_its_own_timer_entries
+            new_timeouts_1500ms(*old(timer), *final(timer)), // @C04.end_game_lasts_1500_ms
+            final(self).in_endgame || (forall|t: TransactionID| #[trigger] old(self).active_lookups@.contains_key(t) && t != *trans_id ==> final(self).active_lookups@.contains_key(t)), // @C04.a_timeout_retires_only_its_own_query
             no_new_refresh(*old(timer), *final(timer)),
             final(self).announce_tokens == old(self).announce_tokens, final(self).will_announce == old(self).will_announce,
             forall|i: int| old(tr).ev.len() <= i < final(tr).ev.len() && #[trigger] final(tr).ev[i] is Send ==> lookup_query(*old(self), final(tr).ev[i]), // @C19.lookup_queries_carry_8_byte_ids_of_the_search
@@ -768,7 +885,7 @@ impl TableLookup {
     }
 //@end
 
-//@begin fn src/action/lookup.rs impl:TableLookup completed props=C03
+//@begin fn src/action/lookup.rs impl:TableLookup completed props=C03,C04
     pub fn completed(&self) -> (r: bool)
         ensures r == (self.active_lookups@.len() == 0),
     {
@@ -777,7 +894,7 @@ impl TableLookup {
     }
 //@end
 
-//@begin fn src/action/lookup.rs impl:TableLookup recv_finished rules=R-deasync props=C03,C19
+//@begin fn src/action/lookup.rs impl:TableLookup recv_finished rules=R-deasync props=C03,C19,C04
     pub fn recv_finished(&mut self, port: Option<u16>, socket: &Socket, Tracked(tr): Tracked<&mut Trace>)
         ensures
             !old(self).will_announce ==> final(tr).ev == old(tr).ev, // @C03.never_announces_when_not_requested
@@ -853,7 +970,7 @@ impl TableLookup {
     }
 //@end
 
-//@begin fn src/action/lookup.rs impl:TableLookup current_lookup_status nopub=1
+//@begin fn src/action/lookup.rs impl:TableLookup current_lookup_status nopub=1 props=C04,C03
     fn current_lookup_status(&self) -> (r: ActionStatus)
         ensures r == (if self.in_endgame || self.active_lookups@.len() != 0 { ActionStatus::Ongoing } else { ActionStatus::Completed }),
     {
